@@ -318,6 +318,24 @@ fn run_inner(line: &str, with_ref: bool) -> String {
                 );
                 h.w.exec(ix, &[h.auths[r]])
             }
+            37 => {
+                // classic liquidation WITHOUT the risk accounts of either party (only the two banks' oracles are passed)
+                let r = t.usize();
+                let e = t.usize();
+                let ab = t.usize();
+                let lb = t.usize();
+                let amt = t.u64();
+                let (abk, lbk) = (h.banks[ab], h.banks[lb]);
+                let lctx = bank_ctx(&h.w, &lbk);
+                let actx = bank_ctx(&h.w, &abk);
+                let mut rem: Vec<AccountMeta> = lctx.mint_prefix.clone();
+                rem.extend(actx.oracle_metas.clone());
+                rem.extend(lctx.oracle_metas.clone());
+                let ix = ixs::lending_account_liquidate(
+                    group, abk, lbk, h.accts[r], h.auths[r], h.accts[e], h.tprog[lb], amt, 0, 0, rem,
+                );
+                h.w.exec(ix, &[h.auths[r]])
+            }
             18 => {
                 let a = t.usize();
                 let b = t.usize();
